@@ -1,16 +1,17 @@
 SPECIFICATION Spec
 CONSTANTS
   N = 3
-  Vals <- VS
-  Rels <- TRelsP3
-  Systems <- AnyTriples
+  Vals <- VLongP
+  Rels <- QRelsPL
+  Systems <- Singles
   Boxes = {}
   Ks <- PKs
-  Scales <- QScales
+  Scales = {2}
 INVARIANT TypeOK
 INVARIANT LastHolds
 INVARIANT Orientation
 INVARIANT PenaltyZeroSet
 INVARIANT KZero
 INVARIANT CrossZero
+INVARIANT ScaleLemma
 INVARIANT EmitC14
